@@ -245,3 +245,27 @@ Definition spec_decode (input : list N) : option (list N) :=
   if forallb basic literal
   then decode_main (length ext) ext initial_n 0 initial_bias literal
   else None.
+
+(* ------------------------------------------------------------------ *)
+(* A host name: labels are separated by U+002E or one of the           *)
+(* ideographic/fullwidth/halfwidth full stops U+3002, U+FF0E, U+FF61    *)
+(* (UTS #46 section 4, step "break"); a label that has a non-basic code *)
+(* point becomes "xn--" followed by its Punycode, any other label is    *)
+(* left as it is; labels are joined by U+002E.                          *)
+(* ------------------------------------------------------------------ *)
+Definition label_separator (c : N) : bool :=
+  (c =? 46) || (c =? 12290) || (c =? 65294) || (c =? 65377).
+
+Definition ace_prefix : list N := [120; 110; 45; 45].     (* "xn--" *)
+
+Definition spec_label (l : list N) : list N :=
+  if forallb basic l then l else ace_prefix ++ spec_encode l.
+
+(* [lab] = code points of the label being read *)
+Fixpoint spec_host (cps : list N) (lab : list N) : list N :=
+  match cps with
+  | [] => spec_label lab
+  | c :: r =>
+      if label_separator c then spec_label lab ++ [46] ++ spec_host r []
+      else spec_host r (lab ++ [c])
+  end.
